@@ -662,10 +662,13 @@ func (m *Manager) publishBlockInternal(ctx context.Context) error {
 				return nil
 			}
 		} else {
-			if batchData.Before(lastHeaderTime) {
-				return fmt.Errorf("timestamp is not monotonically increasing: %s < %s", batchData.Time, m.getLastBlockTime())
-			}
 			m.logger.Info("creating and publishing block", "height", newHeight, "num_tx", len(batchData.Transactions))
+		}
+
+		// applies to empty batches too: a block timestamped before its predecessor can never pass validation,
+		// and once saved it would be picked up as the pending block by every later attempt
+		if batchData.Before(lastHeaderTime) {
+			return fmt.Errorf("timestamp is not monotonically increasing: %s < %s", batchData.Time, m.getLastBlockTime())
 		}
 
 		header, data, err = m.createBlock(ctx, newHeight, lastSignature, lastHeaderHash, batchData)
